@@ -225,3 +225,94 @@ Theorem C11_perm_partial : forall X y X' y' (w w' : option (list Q)) inc f lvl,
   fit X y w inc f lvl = fit X' y' w' inc f lvl.
 Proof. exact fit_perm_partial. Qed.
 Print Assumptions C11_perm_partial.
+
+
+(* ====================================================================================== *)
+(* TEXT TO APPEND TO props/C11.v   (needs proofs/IsoFitPerm.vo; compile order below)       *)
+(* replaces the PARTIAL entry C11_perm_partial in the header table:                        *)
+(*   regardless of row order   C11_perm_all (every functional, both directions, with or    *)
+(*                             without weights: thresholds == and predictions == at EVERY  *)
+(*                             query point), C11_perm_predict (same, on `predict`),         *)
+(*                             C11_perm_training_mean / _expectile (training points,       *)
+(*                             the clause of the property text), C11_sorted_frames_equiv,   *)
+(*                             C11_perm_quantile / C11_perm_median (closed, no axioms)      *)
+(* Axioms: the mean / expectile statements go through the real-number uniqueness of C01/C03 *)
+(* (sig_forall_dec, functional_extensionality_dep); quantile / median / frames are closed.  *)
+(* ====================================================================================== *)
+From MD Require Import model.Functionals proofs.IsoReplicate proofs.IsoFitPerm.
+
+(* predictions at the training points do not depend on the row order: mean *)
+Theorem C11_perm_training_mean : forall X y w X' y' w' inc lvl lvl' ft ft',
+  fit X y w inc IFmean lvl = FOk ft -> fit X' y' w' inc IFmean lvl' = FOk ft' ->
+  Permutation (rows_of X y w) (rows_of X' y' w') ->
+  forall rw, In rw (rows_of X y w) -> predict_val ft (rX rw) == predict_val ft' (rX rw).
+Proof. exact fit_perm_mean. Qed.
+Print Assumptions C11_perm_training_mean.
+
+(* ... expectile *)
+Theorem C11_perm_training_expectile : forall X y w X' y' w' inc lvl ft ft',
+  fit X y w inc IFexpectile lvl = FOk ft -> fit X' y' w' inc IFexpectile lvl = FOk ft' ->
+  Permutation (rows_of X y w) (rows_of X' y' w') ->
+  forall rw, In rw (rows_of X y w) -> predict_val ft (rX rw) == predict_val ft' (rX rw).
+Proof. exact fit_perm_expectile. Qed.
+Print Assumptions C11_perm_training_expectile.
+
+(* the frames after the sort of line 512 of two row orders agree position by position up to == *)
+Theorem C11_sorted_frames_equiv : forall X y w X' y' w' inc,
+  Permutation (rows_of X y w) (rows_of X' y' w') ->
+  Forall2 Qeq (fit_Xs X y w inc) (fit_Xs X' y' w' inc) /\
+  Forall2 Qeq (fit_ys X y w inc) (fit_ys X' y' w' inc).
+Proof. exact sorted_frames_equiv. Qed.
+Print Assumptions C11_sorted_frames_equiv.
+
+(* quantile: the fitted models of two row orders agree up to == (no axioms) *)
+Theorem C11_perm_quantile : forall X y w X' y' w' inc lvl ft ft',
+  fit X y w inc IFquantile lvl = FOk ft -> fit X' y' w' inc IFquantile lvl = FOk ft' ->
+  Permutation (rows_of X y w) (rows_of X' y' w') ->
+  Forall2 Qeq (X_thresholds ft) (X_thresholds ft') /\
+  Forall2 Qeq (y_thresholds ft) (y_thresholds ft') /\
+  forall q q', q == q' -> predict_val ft q == predict_val ft' q'.
+Proof. exact fit_perm_quantile. Qed.
+Print Assumptions C11_perm_quantile.
+
+Theorem C11_perm_median : forall X y w X' y' w' inc lvl lvl' ft ft',
+  fit X y w inc IFmedian lvl = FOk ft -> fit X' y' w' inc IFmedian lvl' = FOk ft' ->
+  Permutation (rows_of X y w) (rows_of X' y' w') ->
+  Forall2 Qeq (X_thresholds ft) (X_thresholds ft') /\
+  Forall2 Qeq (y_thresholds ft) (y_thresholds ft') /\
+  forall q q', q == q' -> predict_val ft q == predict_val ft' q'.
+Proof. exact fit_perm_median. Qed.
+Print Assumptions C11_perm_median.
+
+(* REGARDLESS OF ROW ORDER, in full: every functional, both directions, with or without
+   weights; the only hypotheses are that both fits succeed on the same multiset of rows *)
+Theorem C11_perm_all : forall X y w X' y' w' inc f lvl ft ft',
+  fit X y w inc f lvl = FOk ft -> fit X' y' w' inc f lvl = FOk ft' ->
+  Permutation (rows_of X y w) (rows_of X' y' w') ->
+  Forall2 Qeq (X_thresholds ft) (X_thresholds ft') /\
+  Forall2 Qeq (y_thresholds ft) (y_thresholds ft') /\
+  forall q q', q == q' -> predict_val ft q == predict_val ft' q'.
+Proof. exact fit_perm_all. Qed.
+Print Assumptions C11_perm_all.
+
+Theorem C11_perm_predict : forall X y w X' y' w' inc f lvl ft ft' q,
+  fit X y w inc f lvl = FOk ft -> fit X' y' w' inc f lvl = FOk ft' ->
+  Permutation (rows_of X y w) (rows_of X' y' w') ->
+  exists v v', predict ft q = Some v /\ predict ft' q = Some v' /\ v == v'.
+Proof. exact fit_perm_predict. Qed.
+Print Assumptions C11_perm_predict.
+
+(* integer sample weights = physically repeated rows (mean, expectile): same predictions at
+   the training points (used by C07_replication) *)
+Theorem C11_replication : forall X y ks inc, length X = length y -> length ks = length y ->
+  forall f lvl ft ft', f = IFmean \/ f = IFexpectile ->
+  fit X y (Some (map Qnat ks)) inc f lvl = FOk ft ->
+  fit (repl X ks) (repl y ks) None inc f lvl = FOk ft' ->
+  (forall rw, In rw (rows_of X y (Some (map Qnat ks))) ->
+     predict_val ft (rX rw) == predict_val ft' (rX rw)) /\
+  (forall rw, In rw (rows_of (repl X ks) (repl y ks) None) ->
+     predict_val ft (rX rw) == predict_val ft' (rX rw)).
+Proof. exact fit_replication. Qed.
+Print Assumptions C11_replication.
+
+
